@@ -6,6 +6,7 @@ producer `harness/bqueue/main.go`).
 Checked on every scenario: no call stayed blocked for the (generous, seconds) bound although its
 enabling condition held the whole time (`stuck`, a lost wake-up), no call failed to return for that
 bound after its context had ended (`hang`), no call failed with a non-context error, and after the
+no call answered a context error while its context was still live (`spur`), and after the
 scenario's pattern of cancellations the queue accepts exactly `capacity - len` further elements
 without blocking and delivers everything in order.  `model` mode adds the quiescent white-box facts
 proved in `Ekit/Props/C09a.lean` (`enqFree = cap - count`, `deqFree = count`).
